@@ -2337,7 +2337,11 @@ fn answer_invariants(base: &Model, recs: &[OpRecord]) -> Vec<(&'static str, Stri
             }
             (Op::AddrDeleted(a), Outcome::AddrDeleted(Ok(Some(t)))) => {
                 let namers: Vec<&EvSpec> = specs.values().filter(|d| d.kind == 5 && d.tags.iter().any(|t| t.len() >= 2 && t[0] == "a" && parse_a_target(&t[1]).as_ref() == Some(a))).collect();
-                if !namers.iter().any(|d| d.pk == a.pk && d.at == *t) {
+                if !namers.iter().any(|d| d.pk == a.pk) {
+                    // nobody entitled ever asked for it: whatever put the marker there was somebody
+                    // else's doing
+                    out.push(("C10", format!("the address {} is reported deleted (as of {t}) although no request of its author names it", a.label())));
+                } else if !namers.iter().any(|d| d.pk == a.pk && d.at == *t) {
                     if namers.iter().any(|d| d.pk != a.pk && d.at == *t) {
                         out.push(("C10", format!("the address {} is reported deleted as of {t}, the time of a request by another author", a.label())));
                     } else {
